@@ -42,4 +42,16 @@ PROPS = {
         trusted_base=["uint64 pointers modelled as Nat (guard < 2^64)", "mmap / POSIX shm; single-threaded use of the two handles"],
         assumptions=["writer and reader are not concurrent in the correspondence run (the property is about op sequences)"],
     ),
+    "C09": dict(
+        rule="a prepared scripted source (real PrepareRun -> real TriggerBroker) with 1..8 channels; histories of 1..14 requests through the real "
+             "ChangeGroupTrigger (add/delete, 1..4 pairs each, ~25% out-of-range / negative / self / repeated indices), StopTriggerCoupling, "
+             "LanceroSource.SetCoupling (err->fb, fb->err, none) and Distribute with random primary frames per channel; after every op the "
+             "reported ComputeGroupTriggerState, the broker counter and the distribution are compared with the model and judged by the "
+             "set-theoretic oracle. Non-trivial = a distribution that delivered at least one secondary list; distinct by input line.",
+        nontrivial=["dist"],
+        jobs=seeds(1, 6),
+        trusted_base=["Go map semantics (a set of sources per receiver) modelled as a duplicate-free pair list; map iteration order is irrelevant "
+                      "because outputs are sorted before comparison"],
+        assumptions=["record content of secondaries (receiver's own samples at the frame) is covered by the C01 pipeline check, not here"],
+    ),
 }
